@@ -19,6 +19,8 @@ prop("C16",
 
 prop("C02",
      level="proof",
+     ground=[tables.c02_overlap_ground],
+     budget={"quick": 240, "thorough": 900},
      trusted_base=["string axioms: int(format(n, spec)) == n for spec in ('', '02'), and 'HH:MM'.split(':') separates the two integer renderings; int(x / 2**k) == x >> k for 0 <= x < 2**53 (IEEE-754 scaling by a power of two is exact) -- each validated against CPython on 0..65535 in the thorough tier"],
      assumptions=["precondition: the label written is representable in the item's bit field (C18 well-formedness); the two shipped items violating it are C18 known findings",
                   "the device applies a write by storing the big-endian word at the written position (spec function apply_write)"],
@@ -152,6 +154,7 @@ prop("C12",
 
 prop("C19",
      level="proof",
+     ground=[tables.c19_parse_bounded],
      bounded=["traffic_segment_round_trips_bounded: GeckoSnapshot._re_data_segment on every 1-byte payload and every 2-byte payload whose first byte is one of 19 tricky values (quick) / any value (thorough)"],
      assumptions=["PARTIAL claim. ASSUMED and outside the verifier: regular-expression capture (which substring of a log line reaches each handler), logging.Formatter ('%s' of a list is str(list), of bytes is repr(bytes)), file iteration in parse_log_file, datetime",
                   "NOT claimed: that each of the 34 shipped snapshot files parses and is served unchanged (no contract within reach decides file parsing; running them would be testing)",
